@@ -165,6 +165,37 @@ def lake_build(targets):
     return r.returncode == 0, r.stdout
 
 
+def import_closure(modules):
+    """Polyseed.* modules reachable from the given ones through `import` lines (Gen/Pinned tables excluded)"""
+    seen, todo = [], list(modules)
+    while todo:
+        m = todo.pop()
+        if m in seen or not m.startswith('Polyseed.'):
+            continue
+        path = os.path.join(LEAN, m.replace('.', '/') + '.lean')
+        if not os.path.exists(path):
+            continue
+        seen.append(m)
+        with open(path) as f:
+            for line in f:
+                mm = re.match(r'\s*import\s+(\S+)', line)
+                if mm:
+                    todo.append(mm.group(1))
+    return [m for m in seen if '.Gen.' not in m and '.Pinned.' not in m]
+
+
+def leancheck(modules):
+    """independent re-check of compiled modules with leanchecker (one module per call); returns (failed: list of (module, text), checked: int)"""
+    from concurrent.futures import ThreadPoolExecutor
+    def one(m):
+        r = run(['lake', 'env', 'leanchecker', m], cwd=LEAN)
+        bad = r.returncode != 0 or 'uncaught exception' in r.stdout or 'error' in r.stdout.lower()
+        return (m, r.stdout[-800:]) if bad else None
+    with ThreadPoolExecutor(max_workers=max(2, NPROC // 2)) as ex:
+        res = list(ex.map(one, modules))
+    return [r for r in res if r], len(modules)
+
+
 def driver_path():
     return os.path.join(LEAN, '.lake', 'build', 'bin', 'driver')
 
